@@ -63,6 +63,49 @@ def opTags : Expr → List String
   | .iff l r => "iff" :: (opTags l ++ opTags r)
   | .cond c t e => "cond" :: (opTags c ++ opTags t ++ opTags e)
 
+
+/-! ### big evaluations (more than 12 variables, more than 2^16 nodes) -/
+
+/-- SplitMix-style pseudo-random valuation number `k` (same mixing as `Drive/C01.lean: sampleVal`) -/
+def sampleVal (n k : Nat) : Nat → Bool := fun j =>
+  let z := (k + 1) * 0x9E3779B97F4A7C15 % 2 ^ 64
+  let z := (z ^^^ (z >>> 29)) * 0xBF58476D1CE4E5B9 % 2 ^ 64
+  let z := (z ^^^ (z >>> 32))
+  j < n && (z >>> (j % 60)) % 2 == 1
+
+def samples : Nat := 4096
+
+/-- three densities (1/2, 1/4, 3/4 of the variables true): sparse and dense functions both get exercised -/
+def sampleVals (n : Nat) : List (Nat → Bool) :=
+  (List.range samples).flatMap fun k =>
+    let a := sampleVal n k; let b := sampleVal n (k + samples)
+    [a, (fun j => a j && b j), (fun j => a j || b j)]
+
+def anonNames (n : Nat) : List Name := (List.range n).map fun i => ("x_" ++ toString i).toList
+
+/-- value of the tree under a valuation of `x_0 … x_{n-1}` (names resolved once, by number) -/
+def evalAnon (e : Expr) (v : Nat → Bool) : Bool :=
+  evalBool e fun s => match (String.ofList (s.drop 2)).toNat? with | some i => v i | none => false
+
+/-- exact number of satisfying valuations of a reduced array over `n` variables (children before parents) -/
+def cardOf (A : Arr) (n : Nat) : Nat := Id.run do
+  if A.size ≤ 1 then return 0
+  if A.size = 2 then return 2 ^ n
+  let mut c : Array Nat := #[0, 1]
+  for i in [2:A.size] do
+    let nd := A[i]!
+    let lv := (A[nd.low]!).var; let hv := (A[nd.high]!).var
+    c := c.push (c[nd.low]! * 2 ^ (lv - nd.var - 1) + c[nd.high]! * 2 ^ (hv - nd.var - 1))
+  return c[A.size - 1]! * 2 ^ (A[A.size - 1]!).var
+
+/-- closed-form number of satisfying valuations of the families of `harness/src/bin/c15.rs: big_family` -/
+def closedCard (family : String) (p n : Nat) : Option Nat :=
+  if family == "pairs" then some (4 ^ p - 3 ^ p)
+  else if family == "cnf" then some (3 ^ p)
+  else if family == "equal" then some (2 ^ p)
+  else if family == "muxsop" || family == "muxcond" then some (2 ^ (n - 1))
+  else none
+
 def handle (key : String) (ins obs : List String) : Verdict :=
   match key, ins, obs with
   | "C15.eval", [ns, t], [r, r2] =>
@@ -140,6 +183,40 @@ def handle (key : String) (ins obs : List String) : Verdict :=
       { agree := model == ex ++ " " ++ direct ++ " " ++ reparsed, model, fail := none, nontrivial := false,
         tags := ["malformed", if ex == "panic" then "panic" else "ok"] }
     | _, _ => Verdict.bad "args"
+  | "C15.big", [family, p, n, text], [first, second, third, fourth] =>
+    match p.toNat?, n.toNat?, dec text with
+    | some p, some n, some cs =>
+      let vars := anonNames n
+      -- model replay with the hand model of apply / ternary_apply / not
+      let mtree := parse cs
+      let rtree := reference cs
+      let marr : Option Arr := match mtree with | .ok e => evalExpr vars e | _ => none
+      let model := match marr with | some A => showArr A | none => "panic"
+      -- the model evaluator applied to the REFERENCE parser's tree: by `C15.eval_expr_spec` this is exactly the
+      -- canonical array of the pointwise meaning of that tree, so comparing with it is an exact predicate
+      let canonStr : Option String := match rtree, mtree with
+        | some e, .ok e' => if e = e' then some model else (evalExpr vars e).map showArr
+        | some e, _ => (evalExpr vars e).map showArr
+        | none, _ => none
+      let fail := match rtree, parseArr? first with
+        | none, _ => some "harness: expression text is not in the grammar"
+        | _, none => some "eval_expression_string-panicked"
+        | some e, some A => firstFail [
+            check (numVars A == n) "num_vars",
+            check (isCanon A) "canonical",
+            check ((sampleVals n).all fun v => evalArr A v == evalAnon e v) "pointwise(sampled)",
+            (match closedCard family p n with
+              | some c => check (cardOf A n == c) s!"cardinality:expected={c}:observed={cardOf A n}"
+              | none => none),
+            check (canonStr == some first) "not-the-canonical-array-of-the-expression(eval_expr_spec)",
+            check (second == "=") "method-chain-differs",
+            check (third == "=") "print-parse-eval-differs",
+            check (fourth == "=" || fourth == "skip") "export-print-parse-eval-differs"]
+      { agree := model == first, model := if model == first then "-" else s!"(array of {model.length} characters)",
+        fail, nontrivial := true,
+        tags := ["big", family, s!"nodes2^{Nat.log2 ((parseArr? first).map (·.size) |>.getD 1)}",
+                 if fourth == "skip" then "exportSkipped" else "exportDone"] }
+    | _, _, _ => Verdict.bad "args"
   | "C15.macro", [idx, meaning], [eq, m, c] =>
     match unsexp meaning with
     | some e =>
